@@ -505,3 +505,140 @@ def fs_change_histories(w, report) -> int:
     finally:
         os.chdir(old)
         shutil.rmtree(top, ignore_errors=True)
+
+
+# ------------------------------------------------------------------ the hidden file-system lookups of `~` (seeded change C19e)
+
+TILDE_CALL = r'''
+import json, os, sys
+sys.path.insert(0, sys.argv[1])
+from wcmatch import glob as G
+spec = json.loads(sys.argv[2])
+os.environ['HOME'] = spec['home']
+os.chdir(spec['cwd'])
+out = []
+for api, arg, pat, fl in spec['calls']:
+    if api == 'glob':
+        out.append(sorted(G.glob(pat, flags=fl)))
+    elif api == 'globmatch':
+        out.append([bool(G.globmatch(a, pat, flags=fl)) for a in arg])
+    elif api == 'translate':
+        out.append(G.translate(pat, flags=fl)[0])
+print(json.dumps(out))
+'''
+
+
+def tilde_histories(w, report) -> int:
+    """`~` is replaced by the home directory exactly when that directory exists NOW: the same GLOBTILDE calls with $HOME
+    missing -> created -> removed -> created elsewhere, in one warm process, each answer vs a fresh interpreter"""
+    G = w.G
+    top = tempfile.mkdtemp(prefix='k9home-', dir='/tmp')
+    old_home, old_cwd = os.environ.get('HOME'), os.getcwd()
+    n = 0
+    try:
+        cwd = os.path.join(top, 'cwd')
+        os.makedirs(os.path.join(cwd, '~'))
+        open(os.path.join(cwd, '~', 'lit.txt'), 'w').close()
+        home = os.path.join(top, 'home')
+        os.chdir(cwd)
+        os.environ['HOME'] = home
+        T = G.GLOBTILDE
+        cands = [os.path.join(home, 'y.txt'), '~/lit.txt', os.path.join(home, 'z.py')]
+        calls = [('glob', None, '~/*.txt', T), ('glob', None, ['~/*.txt', '!~/y*'], T | G.NEGATE), ('globmatch', cands, '~/*.txt', T | G.REALPATH),
+                 ('globmatch', cands, '~/*.txt', T), ('translate', None, '~/*.txt', T), ('glob', None, '{~,~}/*.txt', T | G.BRACE),
+                 ('glob', None, '~/*.py|~/*.txt', T | G.SPLIT)]
+
+        def make_home():
+            os.makedirs(home)
+            for f in ('y.txt', 'z.py'):
+                open(os.path.join(home, f), 'w').close()
+
+        def drop_home():
+            shutil.rmtree(home)
+        steps = [('home directory missing', None), ('home directory created', make_home), ('home directory removed', drop_home),
+                 ('home directory created again', make_home)]
+        for label, mut in steps:
+            if mut:
+                mut()
+            spec = {'home': home, 'cwd': cwd, 'calls': calls}
+            r = subprocess.run([common.PY, '-c', TILDE_CALL, common.REPO, json.dumps(spec)], capture_output=True, text=True, timeout=120)
+            if r.returncode != 0:
+                raise RuntimeError('fresh interpreter failed: ' + r.stderr[-400:])
+            fresh = json.loads(r.stdout.strip().split('\n')[-1])
+            for (api, arg, pat, fl), want in zip(calls, fresh):
+                for rep in range(2):
+                    if api == 'glob':
+                        got = sorted(G.glob(pat, flags=fl))
+                    elif api == 'globmatch':
+                        got = [bool(G.globmatch(a, pat, flags=fl)) for a in arg]
+                    else:
+                        got = G.translate(pat, flags=fl)[0]
+                    n += 1
+                    if got != want:
+                        report(f'{api} with GLOBTILDE in a warm process ({label}) differs from the same call in a fresh interpreter',
+                               {'api': api, 'pattern': pat, 'flags': fl, 'state': label, 'HOME': home}, want, got)
+    finally:
+        os.chdir(old_cwd)
+        if old_home is None:
+            os.environ.pop('HOME', None)
+        else:
+            os.environ['HOME'] = old_home
+        shutil.rmtree(top, ignore_errors=True)
+    return n
+
+
+# ------------------------------------------------------------------ one dir_fd shared by several threads (seeded change C19f)
+
+def shared_dirfd_threads(w, report, rounds: int = 6, nthreads: int = 8) -> int:
+    """glob/iglob with the SAME dir_fd on several threads at once: every answer = the sequential answer"""
+    G = w.G
+    top = tempfile.mkdtemp(prefix='k9fd-', dir='/tmp')
+    n = 0
+    old = sys.getswitchinterval()
+    try:
+        os.makedirs(os.path.join(top, 'sub'))
+        for k in range(700):
+            open(os.path.join(top, f'f{k:04d}.txt' if k % 3 else f'g{k:04d}.py'), 'w').close()
+        for k in range(40):
+            open(os.path.join(top, 'sub', f's{k:02d}.txt'), 'w').close()
+        fd = os.open(top, os.O_RDONLY | os.O_DIRECTORY)
+        try:
+            calls = [('*.txt', 0), ('*', 0), ('**/*.txt', G.GLOBSTAR), ('g*.py', 0), ('sub/*', 0), ('*/s0*.txt', 0)]
+            seq = [sorted(G.glob(p, flags=fl, dir_fd=fd)) for p, fl in calls]
+            ref = [sorted(G.glob(p, flags=fl, root_dir=top)) for p, fl in calls]
+            if seq != ref:
+                report('glob(dir_fd=) differs from glob(root_dir=)', {'api': 'glob', 'calls': calls}, [len(x) for x in ref], [len(x) for x in seq])
+            sys.setswitchinterval(1e-6)
+            for _ in range(rounds):
+                res = [[] for _ in range(nthreads)]
+                errs = []
+                bar = threading.Barrier(nthreads)
+
+                def work(i):
+                    try:
+                        bar.wait()
+                        for j in range(len(calls)):
+                            p, fl = calls[(i + j) % len(calls)]
+                            res[i].append(((i + j) % len(calls), sorted(G.glob(p, flags=fl, dir_fd=fd))))
+                    except BaseException as e:  # noqa: BLE001
+                        errs.append(repr(e))
+                ts = [threading.Thread(target=work, args=(i,)) for i in range(nthreads)]
+                for t in ts:
+                    t.start()
+                for t in ts:
+                    t.join(300)
+                for e in errs:
+                    report('a thread globbing through a shared dir_fd crashed', {'error': e}, 'no exception', e)
+                for r in res:
+                    for k, got in r:
+                        n += 1
+                        if got != seq[k]:
+                            report('glob through a dir_fd shared by 8 threads differs from the sequential answer',
+                                   {'api': 'glob', 'pattern': calls[k][0], 'flags': calls[k][1], 'dir_fd': 'shared', 'threads': nthreads},
+                                   f'{len(seq[k])} paths', f'{len(got)} paths')
+        finally:
+            sys.setswitchinterval(old)
+            os.close(fd)
+    finally:
+        shutil.rmtree(top, ignore_errors=True)
+    return n
